@@ -1,6 +1,7 @@
 package main
 
 import (
+	"bytes"
 	"fmt"
 	"math"
 	"net"
@@ -293,6 +294,16 @@ func c12Life(c *mon.Ctx, r *mon.Rand, force string) {
 		desc["second_destination"] = "dead-port"
 		c.Class("lifetimes-with-one-live-and-one-refusing-destination", 1)
 	}
+	// every eighth lifetime with a live destination lists it twice (a hostPort
+	// merged into hostPorts): it then receives every datagram twice, each within
+	// the limit
+	listedTwice := !deadPort && r.Chance(1, 8)
+	if listedTwice {
+		desc["destination_listed_twice"] = true
+		c.Class("lifetimes-with-the-destination-listed-twice", 1)
+	}
+	m3ListTwice = listedTwice
+	defer func() { m3ListTwice = false }()
 	m3ViaConfiguration = r.Chance(1, 6) // build the reporter through m3.Configuration where the options allow it
 	defer func() { m3ViaConfiguration = false }()
 	env, err := newM3Env(nSinks, opts, nil)
@@ -364,6 +375,22 @@ func c12Life(c *mon.Ctx, r *mon.Rand, force string) {
 		return
 	}
 	dgrams := env.Sinks[0].Datagrams()
+	if listedTwice {
+		// one copy per listing, sent one after the other
+		var uniq [][]byte
+		for i := 0; i+1 < len(dgrams); i += 2 {
+			if !bytes.Equal(dgrams[i], dgrams[i+1]) {
+				bad("batches-vs-datagrams", fmt.Sprintf("destination listed twice: datagrams %d and %d (%d and %d bytes) are not two copies of one batch", i, i+1, len(dgrams[i]), len(dgrams[i+1])))
+				return
+			}
+			uniq = append(uniq, dgrams[i])
+		}
+		if len(dgrams)%2 != 0 {
+			bad("batches-vs-datagrams", fmt.Sprintf("destination listed twice received an odd number of datagrams (%d)", len(dgrams)))
+			return
+		}
+		dgrams = uniq
+	}
 	msgs, problems := decodeAll(proto, dgrams)
 	for _, p := range problems {
 		bad("malformed-datagram", p)
